@@ -169,26 +169,33 @@ func xmlName(space, local string) xml.Name {
 type appPayload struct {
 	XMLName xml.Name `xml:"urn:verif:app q"`
 	A       string   `xml:"a,attr"`
-	NA      string   `xml:"urn:verif:attr na,attr"` // an attribute in a namespace of its own
+	NA      string   `xml:"urn:verif:attr na,attr"` // an attribute in a namespace of its own, after a plain one
+	B       string   `xml:"b,attr"`
+	NB      string   `xml:"urn:verif:attr2 nb,attr"` // a second attribute namespace
 	Text    string   `xml:",chardata"`
 	Kids    []appKid `xml:"kid"`
 }
 
 type appKid struct {
-	N string `xml:"n,attr"`
-	V string `xml:",chardata"`
+	NK string `xml:"urn:verif:attr nk,attr"` // a namespaced attribute that comes first
+	N  string `xml:"n,attr"`
+	V  string `xml:",chardata"`
 }
 
 func (p appPayload) tokens() []xml.Token {
 	st := xml.StartElement{Name: xml.Name{Space: "urn:verif:app", Local: "q"}, Attr: []xml.Attr{
 		{Name: xml.Name{Local: "a"}, Value: p.A},
-		{Name: xml.Name{Space: "urn:verif:attr", Local: "na"}, Value: p.NA}}}
+		{Name: xml.Name{Space: "urn:verif:attr", Local: "na"}, Value: p.NA},
+		{Name: xml.Name{Local: "b"}, Value: p.B},
+		{Name: xml.Name{Space: "urn:verif:attr2", Local: "nb"}, Value: p.NB}}}
 	out := []xml.Token{st}
 	if p.Text != "" {
 		out = append(out, xml.CharData(p.Text))
 	}
 	for _, k := range p.Kids {
-		ks := xml.StartElement{Name: xml.Name{Space: "urn:verif:app", Local: "kid"}, Attr: []xml.Attr{{Name: xml.Name{Local: "n"}, Value: k.N}}}
+		ks := xml.StartElement{Name: xml.Name{Space: "urn:verif:app", Local: "kid"}, Attr: []xml.Attr{
+			{Name: xml.Name{Space: "urn:verif:attr", Local: "nk"}, Value: k.NK},
+			{Name: xml.Name{Local: "n"}, Value: k.N}}}
 		out = append(out, ks)
 		if k.V != "" {
 			out = append(out, xml.CharData(k.V))
@@ -199,7 +206,7 @@ func (p appPayload) tokens() []xml.Token {
 }
 
 func (p appPayload) equal(o appPayload) bool {
-	if p.A != o.A || p.NA != o.NA || p.Text != o.Text || len(p.Kids) != len(o.Kids) {
+	if p.A != o.A || p.NA != o.NA || p.B != o.B || p.NB != o.NB || p.Text != o.Text || len(p.Kids) != len(o.Kids) {
 		return false
 	}
 	for i := range p.Kids {
@@ -436,6 +443,91 @@ func viaTokenReader(v any) ([]byte, error) {
 	return encodeTokens(r)
 }
 
+// attrCensus lists every attribute of the document b that is not a namespace
+// declaration as "path {namespace}local=value", with prefixes resolved from
+// the raw tokens.  stray holds the attributes whose prefix is bound to the
+// literal name "xmlns" (or to nothing): namespace declarations that were
+// passed through an encoder as if they were ordinary attributes.
+func attrCensus(b []byte) (all, stray []string, err error) {
+	d := xml.NewDecoder(bytes.NewReader(b))
+	var scopes []map[string]string
+	var path []string
+	lookup := func(p string) (string, bool) {
+		for i := len(scopes) - 1; i >= 0; i-- {
+			if u, ok := scopes[i][p]; ok {
+				return u, true
+			}
+		}
+		if p == "xml" {
+			return nsXML, true
+		}
+		return "", false
+	}
+	for {
+		tok, terr := d.RawToken()
+		if terr == io.EOF {
+			sort.Strings(all)
+			return all, stray, nil
+		}
+		if terr != nil {
+			return all, stray, terr
+		}
+		switch t := tok.(type) {
+		case xml.StartElement:
+			sc := map[string]string{}
+			for _, a := range t.Attr {
+				if a.Name.Space == "xmlns" {
+					sc[a.Name.Local] = a.Value
+				}
+			}
+			scopes = append(scopes, sc)
+			path = append(path, t.Name.Local)
+			for _, a := range t.Attr {
+				if a.Name.Space == "xmlns" || (a.Name.Space == "" && a.Name.Local == "xmlns") {
+					continue
+				}
+				ns := ""
+				bound := true
+				if a.Name.Space != "" {
+					ns, bound = lookup(a.Name.Space)
+				}
+				desc := fmt.Sprintf("%s {%s}%s=%q", strings.Join(path, "/"), ns, a.Name.Local, a.Value)
+				all = append(all, desc)
+				if !bound || ns == "xmlns" {
+					stray = append(stray, fmt.Sprintf("%s:%s=%q on <%s>", a.Name.Space, a.Name.Local, a.Value, t.Name.Local))
+				}
+			}
+		case xml.EndElement:
+			if len(scopes) > 0 {
+				scopes = scopes[:len(scopes)-1]
+				path = path[:len(path)-1]
+			}
+		}
+	}
+}
+
+// sameAttributes is the attribute part of law A for the internal/marshal
+// paths, which re-encode what xml.Marshal produced: the output must carry
+// exactly the attributes of the xml.Marshal output (compared after parsing,
+// prefixes resolved), and no namespace declaration may survive as an attribute.
+func sameAttributes(c *core.Case, path string, got, ref []byte) bool {
+	ga, stray, gerr := attrCensus(got)
+	ra, _, rerr := attrCensus(ref)
+	if gerr != nil || rerr != nil {
+		return true // not well-formed: reported by law W
+	}
+	c.Count("attribute_sets_compared", 1)
+	if len(stray) > 0 {
+		c.Violate("codec:A:stanza:"+path+":stray-namespace-attribute", "the %s output carries namespace declarations as ordinary attributes: %v\n%s: %q\nxml.Marshal: %q", path, stray, path, got, ref)
+		return false
+	}
+	if strings.Join(ga, "\n") != strings.Join(ra, "\n") {
+		c.Violate("codec:A:stanza:"+path+":attributes", "the %s output and the xml.Marshal output have different attributes after parsing:\n%v\nvs\n%v\n%s: %q\nxml.Marshal: %q", path, ga, ra, path, got, ref)
+		return false
+	}
+	return true
+}
+
 // wellFormed is law W: b parses strictly into exactly one element.
 func wellFormed(c *core.Case, typ, path string, b []byte, err error, rootLocal string) *xmltree.Node {
 	if err != nil {
@@ -539,6 +631,7 @@ func checkStanza(c *core.Case, v Val) {
 		{"marshal.EncodeXML", func() ([]byte, error) { return viaEncodeXML(s.val()) }},
 	}
 	var ref core5
+	var refBytes []byte
 	haveRef := false
 	for _, p := range paths {
 		var b []byte
@@ -548,6 +641,9 @@ func checkStanza(c *core.Case, v Val) {
 		}
 		if wellFormed(c, typ, p.name, b, err, v.Kind) == nil {
 			continue
+		}
+		if strings.HasPrefix(p.name, "marshal.") && refBytes != nil {
+			sameAttributes(c, p.name, b, refBytes)
 		}
 		var d core5
 		var derr error
@@ -566,6 +662,7 @@ func checkStanza(c *core.Case, v Val) {
 		}
 		if p.name == "xml.Marshal" {
 			ref, haveRef = d, true
+			refBytes = b
 			if v.NS != "" && d.Space == "" {
 				// encoding/xml ignores the value of XMLName when the tag names the
 				// element, so the standard marshaller cannot carry the namespace;
@@ -706,10 +803,10 @@ func checkStanza(c *core.Case, v Val) {
 	}
 
 	// --- composite value (embedded stanza + application payload): both paths agree and round-trip
-	ap := appPayload{A: v.ID, NA: v.ID, Text: v.Lang}
+	ap := appPayload{A: v.ID, NA: v.ID, B: v.Type, NB: v.Lang, Text: v.Lang}
 	if v.ErrVal != nil {
 		for _, t := range v.ErrVal.Texts {
-			ap.Kids = append(ap.Kids, appKid{N: t.Lang, V: t.Value})
+			ap.Kids = append(ap.Kids, appKid{NK: t.Value, N: t.Lang, V: t.Value})
 		}
 	}
 	var mb, tb []byte
@@ -747,6 +844,9 @@ func checkStanza(c *core.Case, v Val) {
 						}
 						if wellFormed(c, "stanza", p.name+"(composite)", b, err, v.Kind) == nil {
 							continue
+						}
+						if sameAttributes(c, p.name, b, mb) {
+							c.Count("composite_attribute_sets_agree_two_attr_namespaces", 1)
 						}
 						var dc core5
 						var dp appPayload
@@ -1076,7 +1176,8 @@ func Prop() *core.Prop {
 		"texts_xml_special", "texts_non_ascii", "texts_control_adjacent", "texts_unrepresentable", "empty_fields",
 		"replies_with_distinct_addresses", "interleave_scenarios", "interleaved_readers_built_before_consumption",
 		"interleaved_three_readers", "interleaved_partial_then_build", "interleaved_encodexml_nested",
-		"interleaved_values_beyond_4k", "interleaved_outputs_agree"}
+		"interleaved_values_beyond_4k", "interleaved_outputs_agree",
+		"attribute_sets_compared", "composite_attribute_sets_agree_two_attr_namespaces"}
 	for _, k := range []string{"iq", "message", "presence"} {
 		for _, n := range []string{"none", "client", "server"} {
 			req = append(req, k+"_ns_"+n)
@@ -1085,7 +1186,7 @@ func Prop() *core.Prop {
 	return &core.Prop{
 		ID:    "C13",
 		Level: core.Exploration,
-		Rule:  "values are PRNG-drawn IQ/Message/Presence (every defined type constant, XMLName namespace none/client/server, ids and language tags from pools of empty, ASCII, XML-special, non-ASCII and control-adjacent text, addresses that survive Parse(String()) incl. resourceparts with <>&'\"), stanza.Error (every type x defined condition, by, 0-3 texts in distinct languages incl. empty data, optional application condition) and stream.Error (every defined condition, see-other-host content, 0-3 texts with repeated languages, optional application error). Each value is encoded by xml.Marshal, TokenReader/WriteXML/Wrap, internal/marshal.TokenReader and internal/marshal.EncodeXML; each output must parse strictly (W), decode to the same value as xml.Marshal's (A) and to a value equivalent to the original (R); Wrap/Result/Error are checked on the token level (frame, start element, payload tokens unchanged, to/from swapped), UnmarshalError/UnmarshalIQError read the Error helpers back, New*(v.StartElement()) must equal v. For half of the stanza values the interleaved-readers law (I) is also run on the internal/marshal paths: the marshal.TokenReader readers of two or three different values (bare stanzas and stanzas with payload, a third padded beyond 4 KiB) are built first and consumed token by token in PRNG order, or one is partly consumed, another built, then both finished, or marshal.EncodeXML of one value is interrupted after its k-th token by a complete EncodeXML of another into a second encoder; every output must still decode to what xml.Marshal of its own value decodes to. 5% of values carry characters XML cannot represent and are judged for W and A only. distinct = (kind, namespace, type, class of every text field, payload count).",
+		Rule:  "values are PRNG-drawn IQ/Message/Presence (every defined type constant, XMLName namespace none/client/server, ids and language tags from pools of empty, ASCII, XML-special, non-ASCII and control-adjacent text, addresses that survive Parse(String()) incl. resourceparts with <>&'\"), stanza.Error (every type x defined condition, by, 0-3 texts in distinct languages incl. empty data, optional application condition) and stream.Error (every defined condition, see-other-host content, 0-3 texts with repeated languages, optional application error). Each value is encoded by xml.Marshal, TokenReader/WriteXML/Wrap, internal/marshal.TokenReader and internal/marshal.EncodeXML; each output must parse strictly (W), decode to the same value as xml.Marshal's (A) and to a value equivalent to the original (R); Wrap/Result/Error are checked on the token level (frame, start element, payload tokens unchanged, to/from swapped), UnmarshalError/UnmarshalIQError read the Error helpers back, New*(v.StartElement()) must equal v. The internal/marshal outputs must also carry exactly the attributes of the xml.Marshal output after parsing (the composite payload has a plain attribute followed by one in a namespace of its own, another plain one, one in a second attribute namespace, and children whose namespaced attribute comes first), and no namespace declaration may survive as an ordinary attribute. For half of the stanza values the interleaved-readers law (I) is also run on the internal/marshal paths: the marshal.TokenReader readers of two or three different values (bare stanzas and stanzas with payload, a third padded beyond 4 KiB) are built first and consumed token by token in PRNG order, or one is partly consumed, another built, then both finished, or marshal.EncodeXML of one value is interrupted after its k-th token by a complete EncodeXML of another into a second encoder; every output must still decode to what xml.Marshal of its own value decodes to. 5% of values carry characters XML cannot represent and are judged for W and A only. distinct = (kind, namespace, type, class of every text field, payload count).",
 		Assumptions: []string{
 			"equivalence ignores XMLName as filled in by decoding, nil versus empty text collections, and stanza-error text entries with empty data (documented as omitted by the encoder)",
 			"encoding/xml ignores the value of an XMLName field when the struct tag names the element, so xml.Marshal of a stanza cannot carry XMLName.Space; this is counted (xmlname_space_not_carried_by_struct_tags), not judged; the namespace is judged on the Wrap/StartElement path",
